@@ -98,6 +98,9 @@ package requests
 //@   pure
 //@   ensures[C03.baked.fresh] result1 == nil ==> fresh(result0.Payload) && (0 <= id && id < 18632)
 //@   ensures[C17.list.refuse] (id < 0 || id >= 18632) ==> result1 != nil
+// no position of the list is refused: an error comes only from the signing-root computation (which, by [C17.total] of
+// wc_rotation, fails only if the SSZ hasher does) or for a position outside the list
+//@   erroronly[C17.total.list] GetSigningRoot | id < 0 || id >= 18632
 //@   ensures[C17.list.message] result1 == nil ==> result0.BakedDataPayload && result0.MessageID == splitPart(wc_rotation.ValidatorsIndexes, "\n", id) && len(result0.Payload) == 32 && (forall k int :: 0 <= k && k < 32 ==> result0.Payload[k] == specSigningRoot(uint64(decimalValue(splitPart(wc_rotation.ValidatorsIndexes, "\n", id))))[k])
 
 // Every participant expands a proposal by the same rule: an explicit task becomes one message carrying exactly
